@@ -41,14 +41,30 @@ func (c *Ctx) Registry() []*Builtin {
 	return c.reg
 }
 
+// embedsFunction: the struct embeds slip.Function directly or through other
+// embedded structs (WithOpenFile embeds Open embeds Function).
 func embedsFunction(nt *types.Named) bool {
+	return embedsFunctionDepth(nt, 0)
+}
+
+func embedsFunctionDepth(nt *types.Named, depth int) bool {
 	st, ok := nt.Underlying().(*types.Struct)
-	if !ok {
+	if !ok || depth > 4 {
 		return false
 	}
 	for i := 0; i < st.NumFields(); i++ {
 		f := st.Field(i)
-		if f.Embedded() && IsNamed(f.Type(), SlipPath, "Function") {
+		if !f.Embedded() {
+			continue
+		}
+		if IsNamed(f.Type(), SlipPath, "Function") {
+			return true
+		}
+		ft := f.Type()
+		if p, ok := ft.(*types.Pointer); ok {
+			ft = p.Elem()
+		}
+		if n, ok := types.Unalias(ft).(*types.Named); ok && embedsFunctionDepth(n, depth+1) {
 			return true
 		}
 	}
